@@ -17,6 +17,7 @@ type Data struct {
 	Pkg      string
 	Index    int
 	Types    []string
+	Funcs    []string // top-level functions of the static code (callable from the grammar literal)
 	HasState bool
 	HasMemo  bool
 }
